@@ -73,7 +73,8 @@ unary("np.linalg.eigvals", LA.eigvals, [{}], [(3, 3), (2, 3, 3)], gen="spd", tol
 unary("np.linalg.eigvalsh", LA.eigvalsh, [{}, {"UPLO": "U"}], [(3, 3)], gen="spd", tol=True)
 unary("np.linalg.norm", LA.norm, [{}, {"axis": 0}, {"axis": 1, "keepdims": True}], [(4,), (2, 3)], dts="fc")
 unary("np.linalg.norm", LA.norm, [{"ord": 1}, {"ord": np.inf}, {"ord": "fro"}, {"ord": "nuc"}, {"ord": 2}], [(3, 3)], tol=True)
-unary("np.linalg.norm", LA.norm, [{"ord": 1}, {"ord": 3}], [(4,)])
+unary("np.linalg.norm", LA.norm, [{"ord": 1}], [(4,)])
+unary("np.linalg.norm", LA.norm, [{"ord": 3}], [(4,)], tol=True)  # pow/root: not bit-exact under rescaling
 unary("np.linalg.norm", LA.norm, [{"ord": 0}], [(4,)], gen="dup", cls="bare", noncov="ord=0 counts non-zero entries")
 unary("np.linalg.vector_norm", LA.vector_norm, [{}, {"axis": 0}, {"ord": 1}, {"keepdims": True}], [(4,), (2, 3)])
 unary("np.linalg.matrix_norm", LA.matrix_norm, [{}, {"ord": 1}, {"keepdims": True}], [(3, 3), (2, 3)])
